@@ -13,10 +13,13 @@ namespace verif
 inline std::atomic<std::int64_t> g_mono_offset_ns{0};
 inline std::atomic<std::int64_t> g_real_offset_ns{0};
 inline std::atomic<std::int64_t> g_real_fixed_ns{-1}; // >= 0: CLOCK_REALTIME is frozen at this value
+inline std::atomic<std::int64_t> g_mono_fixed_ns{-1}; // >= 0: CLOCK_MONOTONIC is frozen at this value
 inline void setMonoOffsetSeconds(std::int64_t s) { g_mono_offset_ns.store(s * 1000000000LL); }
 inline void setRealOffsetMs(std::int64_t ms) { g_real_offset_ns.store(ms * 1000000LL); }
 inline void freezeRealtimeMs(std::int64_t ms) { g_real_fixed_ns.store(ms * 1000000LL); }
 inline void unfreezeRealtime() { g_real_fixed_ns.store(-1); }
+inline void freezeMonoMs(std::int64_t ms) { g_mono_fixed_ns.store(ms * 1000000LL); }
+inline void unfreezeMono() { g_mono_fixed_ns.store(-1); }
 } // namespace verif
 
 extern "C" int clock_gettime(clockid_t clk, struct timespec *ts) noexcept
@@ -26,6 +29,16 @@ extern "C" int clock_gettime(clockid_t clk, struct timespec *ts) noexcept
   if (clk == CLOCK_REALTIME)
   {
     const std::int64_t fixed = verif::g_real_fixed_ns.load();
+    if (fixed >= 0)
+    {
+      ts->tv_sec = fixed / 1000000000LL;
+      ts->tv_nsec = fixed % 1000000000LL;
+      return 0;
+    }
+  }
+  if (clk == CLOCK_MONOTONIC)
+  {
+    const std::int64_t fixed = verif::g_mono_fixed_ns.load();
     if (fixed >= 0)
     {
       ts->tv_sec = fixed / 1000000000LL;
